@@ -51,6 +51,10 @@ CHECKS = {
                   'subset of entity names is written as a complex instance in canonical and shuffled part orders between sentinel instances; created(#k) must equal legal(G,T), sentinels '
                   'must survive and the verdict must not depend on part order.',
              ref='DESIGN.md section 2 C08'),
+ 'C10': dict(tech='differential monitor: the real lazy loader vs. the real eager reader vs. the generated ground truth (index, forward/reverse tables, dependency closure, per-instance serialisation) under ASan+UBSan',
+             text='Exploration: seeded conforming populations (complex instances, strings containing # ( ; , forward references, sparse ids) are indexed and loaded by lazyInstMgr in forward, '
+                  'reverse and shuffled double orders; ids, keywords, fwd/rev tables, transitive dependencies and every loaded instance are compared with the eager reader and the model.',
+             ref='DESIGN.md section 2 C10', note='open findings restrict the randomized space to acyclic populations, schemas without INVERSE, and comment-free single-line text'),
  'C01': dict(tech='reference-model monitor over recorded executions (independent Part 21 parser vs. files written by the real library) under ASan+UBSan',
              text='Exploration: seeded generated schemas x conforming populations x text variants are read and written by the real p21read/STEPfile '
                   'built with ASan+UBSan from the current tree; an independent Part 21 parser compares the written population value by value with the '
